@@ -284,14 +284,53 @@ def direct_spec(rng, a, common):
     return {"entries": ents, "common": int(common), "shape": [int(s) for s in a.shape]}
 
 
-def gen_operand(rng, impl, shape, vals):
-    """A well-formed index of the given shape with any common (also one that has no rows, or NEVER)."""
+def rand_arr_sparse(rng, shape, vals, base=None):
+    """A mostly-constant array (2-8 % of the cells differ from the dominant value): the index stays small at any size."""
+    base = rng.choice(vals) if base is None else base
+    p = rng.choice([0.02, 0.04, 0.08])
+    n = 1
+    for e in shape:
+        n *= e
+    cells = [rng.choice(vals) if rng.random() < p else base for _ in range(n)]
+    return numpy.array(cells, dtype=int).reshape(shape)
+
+
+def dominant(a, default):
+    if a.size == 0:
+        return default
+    vs, cs = numpy.unique(a, return_counts=True)
+    return int(vs[int(cs.argmax())])
+
+
+def gen_operand(rng, impl, shape, vals, sparse_base=None):
+    """A well-formed index of the given shape with any common (also one that has no rows, or NEVER).
+    sparse_base (scale stream): a mostly-constant array whose dominant value is usually sparse_base; the common is the
+    array's dominant value (small index) or, 1 time in 5, another value (large entries under the dominant value)."""
+    if sparse_base is not None:
+        a = rand_arr_sparse(rng, shape, vals, sparse_base if rng.random() < 0.7 else None)
+        if rng.random() < 0.4 and a.size:
+            return spec_of(impl.iindex.from_array(a)), a
+        return direct_spec(rng, a, dominant(a, sparse_base) if rng.random() < 0.8 else rng.choice(vals + [NEVER])), a
     a = rand_arr(rng, shape, vals)
     common = rng.choice(vals + [NEVER])
     if rng.random() < 0.3 and a.size and len(shape) <= 2:
         idx = impl.iindex.from_array(a)        # library-chosen common
         return spec_of(idx), a
     return direct_spec(rng, a, common), a
+
+
+def gen_init_scale(rng, impl):
+    """Scale stream: 130..400 rows, 1-D or 2-3 columns, dominant common value, so the abstraction stays a few numbers."""
+    vals = list(rng.choice(POOLS))
+    n = rng.randint(130, 400)
+    nc = rng.choice([None, None, 2, 3])
+    shape = (n,) if nc is None else (n, nc)
+    a = rand_arr_sparse(rng, shape, vals)
+    if rng.random() < 0.5:
+        spec, via = spec_of(impl.iindex.from_array(a)), "from_array(common=None)"
+    else:
+        spec, via = direct_spec(rng, a, dominant(a, vals[0])), "direct"
+    return {"array": a.tolist(), "shape": list(shape), "via": via, "spec": spec, "vals": vals}
 
 
 def gen_init(rng, impl, dims3=False):
@@ -330,11 +369,15 @@ def rand_cell(rng, a):
     return (rng.randrange(a.shape[0]),) + tuple(rng.randrange(e) for e in a.shape[1:])
 
 
-def gen_op(rng, impl, idx, a, vals):
-    """Choose the next operation and its arguments from the current REAL state (idx, dense a)."""
+def gen_op(rng, impl, idx, a, vals, scale=False):
+    """Choose the next operation and its arguments from the current REAL state (idx, dense a).
+    scale: the stream over indexes of hundreds of rows (operation mix and argument sizes adapted, see notes)."""
     nd = a.ndim
     common = int(idx.common)
-    if nd == 3:
+    if scale and nd <= 2 and a.shape[0] > 0 and all(e > 0 for e in a.shape[1:]):
+        name = rng.choice(["update"] * 6 + ["append"] * 3 + ["filtered"] * 2 + ["reindexed"] * 2 + ["column_stack", "union", "inter", "diff", "shift",
+                           "copy", "get", "common_rowids", "set_if", "items"] + (["collapsed", "collapsed", "sliced"] if nd == 2 else []))
+    elif nd == 3:
         name = rng.choice(["sliced", "sliced", "slices1d", "copy"])
     elif nd == 1:
         name = rng.choice(["shift", "shiftv", "append", "append", "update", "update", "filtered", "reindexed", "reindexed",
@@ -352,9 +395,21 @@ def gen_op(rng, impl, idx, a, vals):
     if name == "shiftv":
         return {"op": "shiftv", "v": rng.choice(pool + [common])}
     if name == "append":
-        m = rng.choice([0, 0, 1, 2, 3, 4])
-        spec, b = gen_operand(rng, impl, (m,) + a.shape[1:], vals)
+        m = rng.randint(50, 200) if scale else rng.choice([0, 0, 1, 2, 3, 4])
+        spec, b = gen_operand(rng, impl, (m,) + a.shape[1:], vals, sparse_base=common if scale else None)
         return {"op": "append", "other": spec}
+    if name == "update" and scale:
+        # 2-5 cells, mostly of ONE column and mostly rows that now hold an explicit (non-common) value, given 2+ different
+        # values; the dict order of the update is random, so the per-column row ids are often not ascending
+        col = tuple(rng.randrange(e) for e in a.shape[1:])
+        explicit = numpy.nonzero(a[(slice(None),) + col] != common)[0].tolist()
+        cells = {}
+        for _ in range(rng.randint(2, 5)):
+            r = rng.choice(explicit) if explicit and rng.random() < 0.7 else rng.randrange(a.shape[0])
+            hc = col if rng.random() < 0.85 else tuple(rng.randrange(e) for e in a.shape[1:])
+            cur = int(a[(r,) + hc])
+            cells[(r,) + hc] = rng.choice([v for v in vals + [common] if v != cur] or [common])
+        return {"op": "update", "entries": group_cells(rng, cells)}
     if name == "update":
         cells = {}
         if a.size:
@@ -362,7 +417,7 @@ def gen_op(rng, impl, idx, a, vals):
                 cells[rand_cell(rng, a)] = rng.choice(pool + [common, common])
         return {"op": "update", "entries": group_cells(rng, cells)}
     if name == "filtered":
-        p = rng.choice([0.0, 0.3, 0.6, 0.6, 1.0])
+        p = rng.choice([0.3, 0.5, 0.7, 0.9]) if scale else rng.choice([0.0, 0.3, 0.6, 0.6, 1.0])
         return {"op": "filtered", "mask": [rng.random() < p for _ in range(a.shape[0])]}
     if name == "reindexed":
         if rng.random() < 0.3:
@@ -399,7 +454,7 @@ def gen_op(rng, impl, idx, a, vals):
         others = []
         for _ in range(rng.randint(0, 2)):
             nc = rng.choice([None, 1, 2])
-            spec, b = gen_operand(rng, impl, (a.shape[0],) if nc is None else (a.shape[0], nc), vals)
+            spec, b = gen_operand(rng, impl, (a.shape[0],) if nc is None else (a.shape[0], nc), vals, sparse_base=common if scale else None)
             others.append(spec)
         k = rng.randint(0, len(others))
         return {"op": "column_stack", "pre": others[:k], "post": others[k:], "new_common": rng.choice([None, None] + pool),
@@ -436,13 +491,17 @@ def gen_op(rng, impl, idx, a, vals):
                     cells[c] = cur if cur != common else rng.choice([v for v in pool if v != common])
             ents = group_cells(rng, cells)
         else:
+            cap = min(a.shape[0], 12) if scale else a.shape[0]
             for k, rows in dict.items(idx):
                 if rng.random() < 0.6:
-                    ents.append([list(k), sorted(rng.sample(range(a.shape[0]), rng.randint(0, a.shape[0])))])
+                    pick = set(rng.sample(range(a.shape[0]), rng.randint(0, cap)))
+                    if scale and len(rows):          # make sure some of the entry's own rows are among them
+                        pick |= set(rng.sample([int(r) for r in rows], min(len(rows), rng.randint(0, 4))))
+                    ents.append([list(k), sorted(pick)])
             for _ in range(rng.randint(0, 2)):
                 k = [rng.choice(pool)] + [rng.randrange(e) for e in a.shape[1:]]
                 if k not in [e[0] for e in ents] and a.shape[0]:
-                    ents.append([k, sorted(rng.sample(range(a.shape[0]), rng.randint(0, a.shape[0])))])
+                    ents.append([k, sorted(rng.sample(range(a.shape[0]), rng.randint(0, cap)))])
             rng.shuffle(ents)
         if rng.random() < 0.15 and name != "inter":
             # (intersection_update keeps self[k] untouched when other[k] is None - outside the quantifier, reported separately)
@@ -857,14 +916,14 @@ class History:
     pass
 
 
-def run_history(impl, rng, max_steps, dims3=False, with_eq=True, own=None, pool=None):
+def run_history(impl, rng, max_steps, dims3=False, with_eq=True, own=None, pool=None, scale=False):
     h = History()
     h.final = None
     h.steps = []
     h.eqcases = []
     h.problems = []        # (step index, property, signature, text)
     try:
-        h.init = gen_init(rng, impl, dims3)
+        h.init = gen_init_scale(rng, impl) if scale else gen_init(rng, impl, dims3)
     except Exception as e:  # noqa  (from_array raised on a plain small integer array: only a broken implementation gets here)
         import traceback
         h.init = {"array": [], "shape": [0], "via": "construction failed", "spec": {"entries": [], "common": 0, "shape": [0]}, "vals": []}
@@ -881,9 +940,10 @@ def run_history(impl, rng, max_steps, dims3=False, with_eq=True, own=None, pool=
     if "from_array(common=None)" in h.init["via"] and not most_frequent(idx.common, a):
         h.problems.append((-1, "C15", "from_array:common-not-most-frequent", "common %r for %r" % (idx.common, a.tolist())))
     h.tainted_from = None      # first step after which the real state was already objected to by ANOTHER property's oracle
-    for i in range(rng.randint(1, max_steps)):
+    h.scale = scale
+    for i in range(rng.randint(3, 8) if scale else rng.randint(1, max_steps)):
         try:
-            op = gen_op(rng, impl, idx, a, vals)
+            op = gen_op(rng, impl, idx, a, vals, scale=scale)
             st = run_step(impl, idx, a, op)
         except Exception as e:  # noqa  (the harness's own use of the library raised: only a broken implementation gets here)
             if h.tainted_from is None:
@@ -1247,6 +1307,92 @@ def fresh_array(rng):
     shape = (n,) if rng.random() < 0.5 else (n, rng.randint(1, 3))
     size = n * (shape[1] if len(shape) > 1 else 1)
     return numpy.array([rng.choice(vals) for _ in range(size)], dtype=int).reshape(shape)
+
+
+# --------------------------------------------------------------------------------------------
+# 'huge' one-step cases (more than 65 536 cells): judged by the model-free oracles only, no Coq literal
+# --------------------------------------------------------------------------------------------
+BLOCK = 65536
+
+
+def huge_params(rng):
+    """Parameters of a skewed array of more than 65 536 cells: value `lead` leads within the first floor(size/65536)*65536
+    cells (C order) by 2*margin, the ragged tail is almost all `tail`, so `tail` is the most frequent value overall."""
+    kind = rng.choice(["1d", "1d", "2d3", "2d2"])
+    if kind == "1d":
+        shape = [rng.randint(BLOCK + 300, 140000)]
+    elif kind == "2d3":
+        shape = [rng.randint(21950, 30000), 3]
+    else:
+        shape = [rng.randint(BLOCK + 300, BLOCK + 3500), 2]
+    size = shape[0] * (shape[1] if len(shape) > 1 else 1)
+    if size % BLOCK < 300:
+        shape[0] += 300
+    lead, tail, third = rng.sample([0, 1, 2, 3], 3)
+    return {"shape": shape, "lead": lead, "tail": tail, "third": third, "margin": rng.randint(5, 60), "noise": rng.randint(0, 8), "seed": rng.randrange(10 ** 6)}
+
+
+def huge_array(q):
+    size = q["shape"][0] * (q["shape"][1] if len(q["shape"]) > 1 else 1)
+    rs = numpy.random.RandomState(q["seed"])
+    pre = (size // BLOCK) * BLOCK
+    flat = numpy.empty(size, dtype=int)
+    flat[:pre // 2 + q["margin"]] = q["lead"]
+    flat[pre // 2 + q["margin"]:pre] = q["tail"]
+    rs.shuffle(flat[:pre])
+    flat[pre:] = q["tail"]
+    for pos in rs.randint(0, size, q["noise"]):
+        flat[pos] = q["third"]
+    return flat.reshape(q["shape"])
+
+
+def huge_op(rng, impl, q, a, common):
+    """One operation on the huge index, in compact (replayable) form."""
+    names = ["shift", "append", "filtered"] + (["collapsed", "collapsed"] if a.ndim == 2 else [])
+    name = rng.choice(names)
+    if name == "append":
+        spec, b = gen_operand(rng, impl, (rng.randint(50, 200),) + a.shape[1:], [q["lead"], q["tail"], q["third"]], sparse_base=q["lead"])
+        return {"op": "append", "other": spec}
+    if name == "filtered":
+        return {"op": "filtered", "mask_seed": rng.randrange(10 ** 6), "p": rng.choice([0.5, 0.7, 0.9])}
+    if name == "collapsed":
+        return {"op": "collapsed", "prec": rng.sample([q["lead"], q["tail"], q["third"]], rng.randint(2, 3)), "mapping": None}
+    return {"op": "shift"}
+
+
+def expand_huge_op(op, nrows):
+    if op["op"] == "filtered" and "mask" not in op:
+        rs = numpy.random.RandomState(op["mask_seed"])
+        return {"op": "filtered", "mask": (rs.random_sample(nrows) < op["p"]).tolist()}
+    return op
+
+
+def run_huge_case(impl, q, op):
+    """from_array (library-chosen common) on the huge array, then one operation; every judgement by the direct oracles.
+    Returns (problems [(prop, sig, text)], number of oracle judgements made)."""
+    a = huge_array(q)
+    problems = []
+    try:
+        idx = impl.iindex.from_array(a)
+    except Exception as e:  # noqa
+        return [("C06", "huge:from_array-raised", "from_array on %r cells raised %s: %s" % (a.shape, type(e).__name__, e))], 1
+    counts = dict(zip(*[x.tolist() for x in numpy.unique(a, return_counts=True)]))
+    if not most_frequent(idx.common, a):
+        problems.append(("C15", "from_array:common-not-most-frequent", "from_array of %r cells (value counts %r; %r leads within the first %d cells) chose common %r" % (
+            a.shape, counts, q["lead"], (a.size // BLOCK) * BLOCK, idx.common)))
+    w = py_wf(idx)
+    if w:
+        problems.append(("C07", "huge:from_array-illformed", w))
+    spec = spec_of(idx)
+    if not (sane_for_densify(spec) and (densify(spec) == a).all()):
+        problems.append(("C06", "huge:from_array-dense-mismatch", "dense content of from_array(a) differs from a (shape %r)" % (a.shape,)))
+    n = 3
+    if not problems and op is not None:
+        st = run_step(impl, idx, a, expand_huge_op(op, a.shape[0]))
+        n += 3
+        for (pp, sig, text) in st.problems:
+            problems.append((pp, sig, text[:300] + (" ..." if len(text) > 300 else "") + "  [huge case: array of shape %r, value counts %r]" % (a.shape, counts)))
+    return problems, n
 
 
 # --------------------------------------------------------------------------------------------
